@@ -1,1 +1,210 @@
-(* Props/C13.v -- stub, to be filled in *)
+(* Props/C13.v -- property theorems only: Theorem / exact lemma / Check (pins the statement) / Print Assumptions.
+   C13: complex arithmetic is exact field arithmetic; operator variants and the ordering agree.
+   The model is Model/Complex.v (every operator impl of src/complex/mod.rs as its own function).
+   Not proved here: the "few ulps" accuracy of the f64 instantiation for the code's own arithmetic
+   (tie + search; see cmul_rounding_bound below for the rounding-model statement, if present). *)
+From Coq Require Import List Arith Bool Ring_theory Field_theory QArith Qcanon.
+From OV Require Import Base.Panic Base.Arith Model.Complex Inst.QcInst Proofs.Complex Proofs.ComplexQc.
+
+(* ---- Complex F is the commutative ring F[i] ---- *)
+Theorem complex_ring : forall A : Arith,
+  ring_theory (@zero A) one add mul sub neg eq ->
+  ring_theory (@czero A) cone cadd cmul csub cneg eq.
+Proof. intros A R. exact (complex_ring_lemma R). Qed.
+Check complex_ring : forall A : Arith,
+  ring_theory (@zero A) one add mul sub neg eq ->
+  ring_theory (@czero A) cone cadd cmul csub cneg eq.
+Print Assumptions complex_ring.
+Example complex_ring_nonvacuous : ring_theory (@zero AQ) one add mul sub neg eq.
+Proof. exact AQ_ring. Qed.
+
+(* zero and one are identities, on either side, for the complex and for the real-scalar forms *)
+Theorem complex_identities : forall A : Arith,
+  ring_theory (@zero A) one add mul sub neg eq -> forall z : cplx A,
+  cadd z czero = z /\ cadd czero z = z /\ csub z czero = z /\ cmul z cone = z /\ cmul cone z = z /\
+  cadd_r z zero = z /\ csub_r z zero = z /\ cmul_r z one = z /\ rmul_c one z = z.
+Proof. intros A R z. exact (identities_lemma R z). Qed.
+Check complex_identities : forall A : Arith,
+  ring_theory (@zero A) one add mul sub neg eq -> forall z : cplx A,
+  cadd z czero = z /\ cadd czero z = z /\ csub z czero = z /\ cmul z cone = z /\ cmul cone z = z /\
+  cadd_r z zero = z /\ csub_r z zero = z /\ cmul_r z one = z /\ rmul_c one z = z.
+Print Assumptions complex_identities.
+
+(* conjugation is an involutive ring automorphism; z * conj z = |z|^2; |.|^2 is multiplicative *)
+Theorem conj_abs_sqr_laws : forall A : Arith,
+  ring_theory (@zero A) one add mul sub neg eq -> forall z w : cplx A,
+  conj (conj z) = z /\
+  conj (cadd z w) = cadd (conj z) (conj w) /\
+  conj (csub z w) = csub (conj z) (conj w) /\
+  conj (cmul z w) = cmul (conj z) (conj w) /\
+  conj (cneg z) = cneg (conj z) /\
+  cmul z (conj z) = cof_r (abs_sqr z) /\
+  abs_sqr (cmul z w) = mul (abs_sqr z) (abs_sqr w) /\
+  abs_sqr (conj z) = abs_sqr z /\
+  abs_sqr (cneg z) = abs_sqr z /\
+  cadd z (conj z) = cof_r (add (re z) (re z)).
+Proof. intros A R z w. exact (conj_abs_sqr_laws_lemma R z w). Qed.
+Check conj_abs_sqr_laws : forall A : Arith,
+  ring_theory (@zero A) one add mul sub neg eq -> forall z w : cplx A,
+  conj (conj z) = z /\
+  conj (cadd z w) = cadd (conj z) (conj w) /\
+  conj (csub z w) = csub (conj z) (conj w) /\
+  conj (cmul z w) = cmul (conj z) (conj w) /\
+  conj (cneg z) = cneg (conj z) /\
+  cmul z (conj z) = cof_r (abs_sqr z) /\
+  abs_sqr (cmul z w) = mul (abs_sqr z) (abs_sqr w) /\
+  abs_sqr (conj z) = abs_sqr z /\
+  abs_sqr (cneg z) = abs_sqr z /\
+  cadd z (conj z) = cof_r (add (re z) (re z)).
+Print Assumptions conj_abs_sqr_laws.
+
+(* the mixed complex/real operators (real scalar on either side) are the complex operators with (r, 0) *)
+Theorem mixed_real_forms : forall A : Arith,
+  ring_theory (@zero A) one add mul sub neg eq -> forall (z : cplx A) (r : A),
+  cadd_r z r = cadd z (cof_r r) /\ csub_r z r = csub z (cof_r r) /\
+  cmul_r z r = cmul z (cof_r r) /\ rmul_c r z = cmul (cof_r r) z.
+Proof. intros A R z r. exact (mixed_real_forms_lemma R z r). Qed.
+Check mixed_real_forms : forall A : Arith,
+  ring_theory (@zero A) one add mul sub neg eq -> forall (z : cplx A) (r : A),
+  cadd_r z r = cadd z (cof_r r) /\ csub_r z r = csub z (cof_r r) /\
+  cmul_r z r = cmul z (cof_r r) /\ rmul_c r z = cmul (cof_r r) z.
+Print Assumptions mixed_real_forms.
+
+(* ---- division over a field ---- *)
+(* Appendix E pins  abs_sqr w <> 0 -> cmul (cdiv z w) w = z ; cdiv returns a `res` (it panics for Complex<Rat>
+   when |w|^2 = 0), so the statement names the value q it returns. *)
+Theorem cdiv_cancel : forall (A : Arith) (F : FieldLaws A) (z w : cplx A),
+  abs_sqr w <> zero -> exists q, cdiv z w = Ok q /\ cmul q w = z /\ cmul w q = z.
+Proof. intros A F z w H. exact (cdiv_cancel_lemma F z w H). Qed.
+Check cdiv_cancel : forall (A : Arith) (F : FieldLaws A) (z w : cplx A),
+  abs_sqr w <> zero -> exists q, cdiv z w = Ok q /\ cmul q w = z /\ cmul w q = z.
+Print Assumptions cdiv_cancel.
+Example cdiv_cancel_nonvacuous : exists (F : FieldLaws AQ) (w : cplx AQ), abs_sqr w <> zero /\ im w <> zero.
+Proof. exists AQ_FieldLaws, (mkC (q 1 2 : AQ) (q (-3) 1 : AQ)). split; intros H; discriminate H. Qed.
+
+Theorem cdiv_formula : forall (A : Arith) (F : FieldLaws A) (z w : cplx A),
+  abs_sqr w <> zero -> cdiv z w = Ok (cmul_r (cmul z (conj w)) (fl_inv A F (abs_sqr w))).
+Proof. intros A F z w H. exact (cdiv_formula_lemma F z w H). Qed.
+Check cdiv_formula : forall (A : Arith) (F : FieldLaws A) (z w : cplx A),
+  abs_sqr w <> zero -> cdiv z w = Ok (cmul_r (cmul z (conj w)) (fl_inv A F (abs_sqr w))).
+Print Assumptions cdiv_formula.
+
+Theorem cdiv_unique : forall (A : Arith) (F : FieldLaws A) (z w q : cplx A),
+  abs_sqr w <> zero -> cmul q w = z -> cdiv z w = Ok q.
+Proof. intros A F z w q H E. exact (cdiv_unique_lemma F z w q H E). Qed.
+Check cdiv_unique : forall (A : Arith) (F : FieldLaws A) (z w q : cplx A),
+  abs_sqr w <> zero -> cmul q w = z -> cdiv z w = Ok q.
+Print Assumptions cdiv_unique.
+
+Theorem cdiv_panics_iff : forall (A : Arith) (F : FieldLaws A) (z w : cplx A),
+  cdiv z w = Panic DivZero <-> abs_sqr w = zero.
+Proof. intros A F z w. exact (cdiv_panics_iff_lemma F z w). Qed.
+Check cdiv_panics_iff : forall (A : Arith) (F : FieldLaws A) (z w : cplx A),
+  cdiv z w = Panic DivZero <-> abs_sqr w = zero.
+Print Assumptions cdiv_panics_iff.
+
+Theorem cdiv_real_scalar : forall (A : Arith) (F : FieldLaws A) (z : cplx A) (r : A),
+  cdiv_r z r = cdiv z (cof_r r).
+Proof. intros A F z r. exact (cdiv_r_lemma F z r). Qed.
+Check cdiv_real_scalar : forall (A : Arith) (F : FieldLaws A) (z : cplx A) (r : A),
+  cdiv_r z r = cdiv z (cof_r r).
+Print Assumptions cdiv_real_scalar.
+
+Theorem cdiv_one : forall (A : Arith) (F : FieldLaws A) (z : cplx A),
+  cdiv z cone = Ok z /\ cdiv_r z one = Ok z.
+Proof. intros A F z. exact (cdiv_one_lemma F z). Qed.
+Check cdiv_one : forall (A : Arith) (F : FieldLaws A) (z : cplx A),
+  cdiv z cone = Ok z /\ cdiv_r z one = Ok z.
+Print Assumptions cdiv_one.
+
+(* ---- the compound-assignment forms (statement sequences of the source) equal the binary forms ---- *)
+Theorem assign_eq_binary : forall A : Arith, (forall x y : A, add x y = add y x) ->
+  forall (z w : cplx A) (r : A),
+  cmul_assign z w = cmul z w /\ cdiv_assign z w = cdiv z w /\ cadd_assign z w = cadd z w /\
+  csub_assign z w = csub z w /\ cadd_assign_r z r = cadd_r z r /\ csub_assign_r z r = csub_r z r /\
+  cmul_assign_r z r = cmul_r z r /\ cdiv_assign_r z r = cdiv_r z r.
+Proof. intros A C z w r. exact (assign_eq_binary_lemma C z w r). Qed.
+Check assign_eq_binary : forall A : Arith, (forall x y : A, add x y = add y x) ->
+  forall (z w : cplx A) (r : A),
+  cmul_assign z w = cmul z w /\ cdiv_assign z w = cdiv z w /\ cadd_assign z w = cadd z w /\
+  csub_assign z w = csub z w /\ cadd_assign_r z r = cadd_r z r /\ csub_assign_r z r = csub_r z r /\
+  cmul_assign_r z r = cmul_r z r /\ cdiv_assign_r z r = cdiv_r z r.
+Print Assumptions assign_eq_binary.
+Example assign_eq_binary_nonvacuous : forall x y : AQ, add x y = add y x.
+Proof. intros x y. apply Qcplus_comm. Qed.
+
+(* seven of the eight hold for ANY arithmetic (no law: the float instance included); f64 * z is z * f64 *)
+Theorem assign_eq_binary_any_arith : forall (A : Arith) (z w : cplx A) (r : A),
+  cdiv_assign z w = cdiv z w /\ cadd_assign z w = cadd z w /\ csub_assign z w = csub z w /\
+  cadd_assign_r z r = cadd_r z r /\ csub_assign_r z r = csub_r z r /\
+  cmul_assign_r z r = cmul_r z r /\ cdiv_assign_r z r = cdiv_r z r.
+Proof. intros A z w r. exact (assign_eq_binary_any_arith_lemma z w r). Qed.
+Check assign_eq_binary_any_arith : forall (A : Arith) (z w : cplx A) (r : A),
+  cdiv_assign z w = cdiv z w /\ cadd_assign z w = cadd z w /\ csub_assign z w = csub z w /\
+  cadd_assign_r z r = cadd_r z r /\ csub_assign_r z r = csub_r z r /\
+  cmul_assign_r z r = cmul_r z r /\ cdiv_assign_r z r = cdiv_r z r.
+Print Assumptions assign_eq_binary_any_arith.
+
+(* ---- equality and the lexicographic ordering ---- *)
+Theorem cmp_total : forall A : Arith, OrderLaws A -> forall z w : cplx A,
+  exactly_one (cltb z w = true) (z = w) (cltb w z = true).
+Proof. intros A O z w. exact (cmp_total_lemma O z w). Qed.
+Check cmp_total : forall A : Arith, OrderLaws A -> forall z w : cplx A,
+  exactly_one (cltb z w = true) (z = w) (cltb w z = true).
+Print Assumptions cmp_total.
+Example cmp_total_nonvacuous : OrderLaws AQ.
+Proof. exact AQ_order. Qed.
+
+Theorem cmp_trans : forall A : Arith, OrderLaws A -> forall z w v : cplx A,
+  cltb z w = true -> cltb w v = true -> cltb z v = true.
+Proof. intros A O z w v H1 H2. exact (cltb_trans_lemma O z w v H1 H2). Qed.
+Check cmp_trans : forall A : Arith, OrderLaws A -> forall z w v : cplx A,
+  cltb z w = true -> cltb w v = true -> cltb z v = true.
+Print Assumptions cmp_trans.
+Example cmp_trans_nonvacuous : exists z w v : cplx AQ, cltb z w = true /\ cltb w v = true /\ re z = re w /\ re w <> re v.
+Proof.
+  exists (mkC (q 1 2 : AQ) (q (-3) 1 : AQ)), (mkC (q 1 2 : AQ) (q 2 1 : AQ)), (mkC (q 2 3 : AQ) (q (-7) 1 : AQ)).
+  repeat split. intros H; discriminate H.
+Qed.
+
+(* partial_cmp never answers None, Equal iff eq iff the same number, Less / Greater iff < / > *)
+Theorem cmp_equal_iff_eq : forall A : Arith, OrderLaws A -> forall z w : cplx A,
+  (ccmp z w = Some Eq <-> ceqb z w = true) /\ (ceqb z w = true <-> z = w) /\
+  (ccmp z w = Some Lt <-> cltb z w = true) /\ (ccmp z w = Some Gt <-> cltb w z = true) /\ ccmp z w <> None.
+Proof. intros A O z w. exact (cmp_equal_iff_eq_lemma O z w). Qed.
+Check cmp_equal_iff_eq : forall A : Arith, OrderLaws A -> forall z w : cplx A,
+  (ccmp z w = Some Eq <-> ceqb z w = true) /\ (ceqb z w = true <-> z = w) /\
+  (ccmp z w = Some Lt <-> cltb z w = true) /\ (ccmp z w = Some Gt <-> cltb w z = true) /\ ccmp z w <> None.
+Print Assumptions cmp_equal_iff_eq.
+
+(* the operators Rust derives from partial_cmp (lt le gt ge) agree with each other and with eq *)
+Theorem cmp_derived_ops : forall A : Arith, OrderLaws A -> forall z w : cplx A,
+  clt_pc z w = cltb z w /\ cle_pc z w = cleb z w /\ cgt_pc z w = cltb w z /\ cge_pc z w = cleb w z /\
+  cleb z w = cltb z w || ceqb z w.
+Proof. intros A O z w. exact (derived_ops_lemma O z w). Qed.
+Check cmp_derived_ops : forall A : Arith, OrderLaws A -> forall z w : cplx A,
+  clt_pc z w = cltb z w /\ cle_pc z w = cleb z w /\ cgt_pc z w = cltb w z /\ cge_pc z w = cleb w z /\
+  cleb z w = cltb z w || ceqb z w.
+Print Assumptions cmp_derived_ops.
+
+(* ---- corollaries at the exact-tier instance (Complex<Rat> = Qc[i]): no hypothesis left ---- *)
+Theorem complex_Qc_ring : ring_theory (@czero AQ) cone cadd cmul csub cneg eq.
+Proof. exact (complex_ring_lemma AQ_ring). Qed.
+Check complex_Qc_ring : ring_theory (@czero AQ) cone cadd cmul csub cneg eq.
+Print Assumptions complex_Qc_ring.
+
+Theorem cdiv_Qc : forall z w : cplx AQ,
+  (w <> czero -> exists q, cdiv z w = Ok q /\ cmul q w = z) /\
+  (w = czero -> cdiv z w = Panic DivZero).
+Proof. intros z w. exact (cdiv_Qc_lemma z w). Qed.
+Check cdiv_Qc : forall z w : cplx AQ,
+  (w <> czero -> exists q, cdiv z w = Ok q /\ cmul q w = z) /\
+  (w = czero -> cdiv z w = Panic DivZero).
+Print Assumptions cdiv_Qc.
+
+Theorem cmp_total_Qc : forall z w : cplx AQ,
+  exactly_one (cltb z w = true) (z = w) (cltb w z = true).
+Proof. intros z w. exact (cmp_total_lemma AQ_order z w). Qed.
+Check cmp_total_Qc : forall z w : cplx AQ,
+  exactly_one (cltb z w = true) (z = w) (cltb w z = true).
+Print Assumptions cmp_total_Qc.
